@@ -221,6 +221,21 @@ def gen_scheme(rng, family=None, max_pairs=200):
         t34 = M + d()
         return {"b": [0, M + d(), M + d(), b3, b4, rng.choice([0, M + d()])], "t": [t01, t01, 0, t34, t34, rng.choice([0, M + d()])],
                 "scale": 1, "family": family}
+    if family == "decimal":
+        # penalties that are NOT exactly representable in binary (tenths, thirds): only for checks whose predicate does not
+        # compare scores (structure of the result, absence of failure) — float sums drift here
+        s = rng.choice([10, 10, 3, 7])
+        p = rng.randint(1, s - 1)
+        kind = rng.choice(["unifying", "pseudo", "induced", "custom"])
+        if kind == "custom":
+            b3 = rng.randint(0, s)
+            t34 = rng.randint(0, s)
+            return {"b": [0, s, rng.randint(0, s), b3, max(b3, rng.randint(0, s)), rng.randint(0, s)],
+                    "t": [p, p, 0, t34, t34, rng.randint(0, s)], "scale": s, "family": family}
+        b5 = {"unifying": p, "pseudo": 0, "induced": 0}[kind]
+        b4 = 0 if kind == "induced" else s
+        t34 = 0 if kind == "induced" else p
+        return {"b": [0, s, p, 0, b4, b5], "t": [p, p, 0, t34, t34, 0], "scale": s, "family": family}
     if family == "cheap_ties":
         # tie cost below half of the inversion cost (p < 0.5): ties inside cycles become optimal
         s = 8
